@@ -374,6 +374,7 @@ func visitInstr(fr *frame, instr ssa.Instruction) continuation {
 		panic(targetPanic{fr.get(instr.X)})
 
 	case *ssa.Send:
+		fr.i.chanOpInThread(instr)
 		fr.i.chanSend(fr.get(instr.Chan).(chan value), fr.get(instr.X))
 
 	case *ssa.Store:
